@@ -32,9 +32,9 @@ class Chunk:
             if "vertices" in txt: return cls.VERTICES
             if "edges" in txt : return cls.EDGES
             if "facet_corners" in txt : return cls.FACE_CORNERS
-            if "facets" in txt : return cls.FACES
             if "cell_corners" in txt : return cls.CELL_CORNERS
-            if "cell_facets" in txt : return cls.CELL_FACETS
+            if "cell_facets" in txt or "cell_faces" in txt : return cls.CELL_FACETS # to be tested before "facets"
+            if "facets" in txt : return cls.FACES
             if "cells" in txt : return cls.CELLS
 
         def to_string(self):
@@ -134,7 +134,7 @@ def import_geogram_ascii(path):
             # cell sizrs are provided : the mesh is not tetrahedral
             for i in range(container_sizes[Chunk.Container.CELLS]-1):
                 n_corner_in_cell.append(chk.data[i+1] - chk.data[i])
-            n_corner_in_facet.append(container_sizes[Chunk.Container.CELL_CORNERS] - chk.data[-1])
+            n_corner_in_cell.append(container_sizes[Chunk.Container.CELL_CORNERS] - chk.data[-1])
             cell_ptr = chk.data
 
     if len(n_corner_in_facet)==0 and container_sizes[Chunk.Container.FACES]>0:
